@@ -15,12 +15,55 @@ def _closure(body):
     return None, None
 
 
+_CANON = {}
+
+
+def canonical(fn):
+    """a copy of string_to_tokens' body in which the three bookkeeping locals carry canonical names, whatever they are
+    called in the source: `char_at_byte` (the Vec<Option<usize>> table), `line` (the integer local that is incremented)
+    and `last_newline` (the integer local that is assigned).  The rules below talk about roles, not about spellings."""
+    import copy
+    key = id(fn)
+    if key in _CANON:
+        return _CANON[key]
+    body = copy.deepcopy(fn_body(fn))
+    lets = {}
+    for blk in nodes(body, "Block"):
+        for st in blk["stmts"]:
+            if st.get("k") == "Let" and st.get("init") is not None:
+                for b in pat_bindings(st["pat"]):
+                    lets[b["hid"]] = (b, peel(st["init"]))
+    incremented = {peel(a["l"]).get("hid") for a in nodes(body, "AssignOp") if a.get("op") in ("Add", "AddAssign")}
+    assigned = {peel(a["l"]).get("hid") for a in nodes(body, "Assign")}
+    roles = {}
+    for hid, (b, init) in lets.items():
+        ty = (b.get("ty") or "")
+        if "Vec<core::option::Option<usize>>" in ty.replace("alloc::vec::", ""):
+            roles.setdefault("char_at_byte", hid)
+        elif init.get("k") == "Lit" and isinstance(init.get("v"), int) and not isinstance(init.get("v"), bool):
+            if hid in incremented and hid not in assigned:
+                roles.setdefault("line", hid)
+            elif hid in assigned and hid not in incremented:
+                roles.setdefault("last_newline", hid)
+    by_hid = {h: r for r, h in roles.items()}
+    for x in nodes(body):
+        if x.get("k") == "Path" and x.get("res") == "Local" and x.get("hid") in by_hid:
+            x["name"] = by_hid[x["hid"]]
+    for hid, (b, _i) in lets.items():
+        if hid in by_hid:
+            b["name"] = by_hid[hid]
+    _CANON[key] = (body, roles)
+    return _CANON[key]
+
+
 def line_rules(F, rep, rule="LINE"):
     """every token whose pattern can contain a newline advances `line` (and `last_newline`) once per newline"""
     tk = toks.TokenSpec(F)
     fn = F.fn(FN)
     rep.analysed(fn)
-    body = fn_body(fn)
+    body, roles = canonical(fn)
+    if set(roles) != {"char_at_byte", "line", "last_newline"}:
+        rep.anchor_missing("the bookkeeping locals of string_to_tokens (found roles: %s)" % sorted(roles))
     fl = Flow(fn, body)
     capable = [n for n in tk.order if tk.can_contain(n, "\n")]
     rep.ob(rule, "newline-capable-census", "Newline" in capable,
@@ -171,7 +214,7 @@ def _tup_tails(e, depth=0):
 def unit_rules(F, rep, rule="UNIT"):
     """byte offsets index char_at_byte only; columns are char - char"""
     fn = F.fn(FN)
-    body = fn_body(fn)
+    body, _roles = canonical(fn)
     fl = Flow(fn, body)
 
     def unit(e, depth=0):
